@@ -150,6 +150,18 @@ func main() {
 			}
 		}
 	}
+	if sc.Deaf {
+		os.Stdin.Close()
+		for _, st := range sc.Steps {
+			sl := plug.StepLog{Sent: st.Send}
+			if _, werr := os.Stdout.Write(st.Send); werr != nil {
+				sl.WriteErr = werr.Error()
+			}
+			tr.Steps = append(tr.Steps, sl)
+		}
+		tr.End = "deaf"
+		finish(0)
+	}
 	if sc.Burst {
 		var all []byte
 		for _, st := range sc.Steps {
